@@ -117,9 +117,10 @@ def run_chain(kind, axis, Xrows, y, init, stages, extra=None, scale=1, observe_f
     out = []
     for si, st in enumerate(stages):
         thr = st.get("thr")
-        sel.set_params(n_to_select=st["nts"],
-                       score_threshold=None if thr is None else thr[0] / thr[1],
-                       score_threshold_type=st.get("thr_type", "absolute"))
+        for k_, v_ in dict(n_to_select=st["nts"],
+                           score_threshold=None if thr is None else thr[0] / thr[1],
+                           score_threshold_type=st.get("thr_type", "absolute")).items():
+            setattr(sel, k_, v_)      # what BaseEstimator.set_params does (VoronoiFPS hides them in **kwargs)
         rec = {}
         with warnings.catch_warnings(record=True) as w:
             warnings.simplefilter("always")
